@@ -25,6 +25,12 @@
 #include <unordered_set>
 #include <vector>
 
+#if defined(__has_include)
+#if __has_include(<sanitizer/common_interface_defs.h>)
+#include <sanitizer/common_interface_defs.h>
+#define VP_HAVE_SAN_CB 1
+#endif
+#endif
 #include <fcntl.h>
 #include <signal.h>
 #include <sys/wait.h>
@@ -51,6 +57,10 @@ struct Fail {
 			::vp::fail((key), vp_os_.str());                                                \
 		}                                                                                   \
 	} while(0)
+
+// known-findings mode: the exclusions that keep confirmed, recorded defects out of generation are lifted, so that the
+// committed minimal inputs under corpus/<ID>/known/ can show that the finding is still present (driver prints KNOWN-FINDING)
+inline bool known_mode() { static bool const k = std::getenv("VP_KNOWN") != nullptr; return k; }
 
 // ---------------------------------------------------------------------------------------------- input
 struct Input {
@@ -178,12 +188,16 @@ struct Outcome { bool ok = true; std::string key, msg, desc; };
 // in a forked child: on abort (library assertion, sanitizer with abort_on_error) ship the partial case description first
 inline Ctx*& current_ctx() { static Ctx* c = nullptr; return c; }
 inline int& crash_fd() { static int fd = -1; return fd; }
-inline void on_abort(int sig) {
+inline void ship_desc() {
 	if(crash_fd() >= 0 && current_ctx() != nullptr) {
 		auto const& s = current_ctx()->desc.s;
 		(void)!write(crash_fd(), "C\x1f\x1f", 3);
 		(void)!write(crash_fd(), s.data(), s.size());
+		crash_fd() = -1;
 	}
+}
+inline void on_abort(int sig) {
+	ship_desc();
 	signal(sig, SIG_DFL);
 	raise(sig);
 }
@@ -220,6 +234,9 @@ Outcome run_forked(std::vector<std::uint8_t> const& bytes) {
 		if(efd >= 0) { dup2(efd, 2); }
 		alarm(20);
 		crash_fd() = fd[1];
+#ifdef VP_HAVE_SAN_CB
+		__sanitizer_set_death_callback(ship_desc);
+#endif
 		signal(SIGABRT, on_abort); signal(SIGSEGV, on_abort); signal(SIGBUS, on_abort); signal(SIGFPE, on_abort); signal(SIGILL, on_abort);
 		Outcome o = run_inproc<Prop>(bytes, false);
 		crash_fd() = -1;
@@ -272,8 +289,12 @@ Outcome run_forked(std::vector<std::uint8_t> const& bytes) {
 	} else if((pos = err.find("ERROR: AddressSanitizer: ")) != std::string::npos) {
 		auto e = err.find_first_of(" \n", pos + 25);
 		cls = "asan:" + err.substr(pos + 25, e - (pos + 25));
-	} else if(err.find("runtime error:") != std::string::npos) {
-		cls = "ubsan";
+	} else if((pos = err.find("runtime error: ")) != std::string::npos) {
+		std::string ex = err.substr(pos + 15, 60);
+		auto nl = ex.find('\n'); if(nl != std::string::npos) { ex = ex.substr(0, nl); }
+		std::string cl;
+		for(char ch : ex) { if(ch >= '0' && ch <= '9') { continue; } cl += (ch == ' ') ? '_' : ch; }
+		cls = "ubsan:" + cl;
 	} else if(err.find("terminate called") != std::string::npos) {
 		cls = "terminate";
 	}
